@@ -1721,9 +1721,13 @@ class combine_latest(Stream):
                                "a new ``emit_on`` or running "
                                "``node.emit_on=tuple(node.upstreams)`` to "
                                "emit on all incoming data")
-        self.last.pop(self.upstreams.index(upstream))
-        self.metadata.pop(self.upstreams.index(upstream))
-        self.missing.remove(upstream)
+        idx = self.upstreams.index(upstream)
+        self.last.pop(idx)
+        removed = self.metadata.pop(idx)
+        if removed:
+            self._release_refs(removed)
+        # the upstream is only "missing" until it has delivered something
+        self.missing.discard(upstream)
         super(combine_latest, self)._remove_upstream(upstream)
         if self._initial_emit_on is None:
             self.emit_on = self.upstreams
